@@ -21,7 +21,7 @@ import (
 
 // Step is one action of a scripted exchange, in numbers relative to the two ISS.
 type Step struct {
-	Kind string     `json:"k"` // data, ack, write, read, wait
+	Kind string     `json:"k"` // data, ack, write, read, wait, span (Off = generator's next in-order byte, Len = bytes behind the left edge, Ms = bytes beyond the right edge)
 	Off  int64      `json:"off,omitempty"`
 	Len  int        `json:"len,omitempty"`
 	Ack  int64      `json:"ack,omitempty"`
@@ -41,6 +41,7 @@ type Script struct {
 	// (which the script's first data step sends again)
 	Cookie  bool `json:"cookie,omitempty"`
 	AckData int  `json:"ack_data,omitempty"`
+	RcvBuf  int  `json:"rcvbuf,omitempty"` // small receive buffer: a window that one segment can span
 }
 
 // Gen builds script k of the family named by label.
@@ -97,6 +98,17 @@ func Gen(seed int64, label string, k int) Script {
 			}
 		}
 	}
+	if r.Chance(1, 3) {
+		// a small receive buffer, and at PRNG-chosen places one segment that starts behind the
+		// window's left edge and ends beyond its right edge (a coalesced retransmission by a
+		// peer that overruns the window): it shares every sequence number of the window
+		sc.RcvBuf = []int{2048, 4096, 8192}[r.Intn(3)]
+		for j := 0; j < 1+r.Intn(3); j++ {
+			at := r.Intn(len(sc.Steps) + 1)
+			st := Step{Kind: "span", Len: 1 + r.Intn(600), Ms: 1 + r.Intn(600)}
+			sc.Steps = append(sc.Steps[:at], append([]Step{st}, sc.Steps[at:]...)...)
+		}
+	}
 	sc.Steps = append(sc.Steps, Step{Kind: "read"}, Step{Kind: "wait", Ms: 1500})
 	if !sc.Active && r.Chance(1, 4) { // drawn last: the steps above are the same with and without
 		sc.Cookie = r.Bool()
@@ -122,7 +134,7 @@ func Play(sc Script, ownISS, peerISS uint32) ([]string, string) {
 	for i := 0; i < sc.AckData; i++ {
 		ackData = append(ackData, tcpx.PByte(uint64(sc.K), 1, int64(i)))
 	}
-	conn, emsg := p.Establish(rawpeer.EstOpts{Active: sc.Active, LPort: 80, PPort: 33333, PeerISS: peerISS, OwnISS: &own, MSS: 1000, WS: 3, TS: sc.TS, SACK: sc.SACK, Window: 60000, AckData: ackData})
+	conn, emsg := p.Establish(rawpeer.EstOpts{Active: sc.Active, LPort: 80, PPort: 33333, PeerISS: peerISS, OwnISS: &own, MSS: 1000, WS: 3, TS: sc.TS, SACK: sc.SACK, Window: 60000, AckData: ackData, RcvBuf: sc.RcvBuf})
 	tcp.SynRcvdCountThreshold = 1000
 	if conn == nil {
 		return nil, emsg
@@ -134,6 +146,9 @@ func Play(sc Script, ownISS, peerISS uint32) ([]string, string) {
 	var out []string
 	var lastAck int64
 	var readTotal, nearSeq, nearAck, written int64
+	var lastEdge int64 // right edge of the stack's latest window advertisement
+	var genNext int64  // the generator's count of the peer's in-order stream
+	var adj int64      // runtime offset of the peer's stream against that count (span segments move it)
 	sendErr := ""
 	render := func(segs []rawpeer.Seg) string {
 		var l []string
@@ -155,6 +170,13 @@ func Play(sc Script, ownISS, peerISS uint32) ([]string, string) {
 			if ra > nearAck {
 				nearAck = ra
 			}
+			if !s.Has(rfc.SYN) && s.Has(rfc.ACK) {
+				ws := uint(0)
+				if conn.WSok {
+					ws = uint(conn.OwnWS)
+				}
+				lastEdge = ra + int64(s.Window)<<ws
+			}
 			e := fmt.Sprintf("f%02x s%d a%d l%d w%d", s.Flags, rs, ra, len(s.Payload), s.Window)
 			if d, ok := s.Opt(5); ok {
 				for i := 0; i+8 <= len(d); i += 8 {
@@ -171,9 +193,42 @@ func Play(sc Script, ownISS, peerISS uint32) ([]string, string) {
 		case "data":
 			pl := make([]byte, st.Len)
 			for i := range pl {
-				pl[i] = tcpx.PByte(uint64(sc.K), 1, st.Off+int64(i))
+				pl[i] = tcpx.PByte(uint64(sc.K), 1, st.Off+adj+int64(i))
 			}
-			conn.Send(st.Off, lastAck, rfc.ACK|rfc.PSH, 60000, pl, nil)
+			conn.Send(st.Off+adj, lastAck, rfc.ACK|rfc.PSH, 60000, pl, nil)
+			if e := st.Off + int64(st.Len); st.Off <= genNext && e > genNext {
+				genNext = e
+			}
+		case "span":
+			start, end := nearAck-int64(st.Len), lastEdge+int64(st.Ms)
+			if start < 0 {
+				start = 0
+			}
+			if lastEdge <= nearAck || nearAck != genNext+adj || end-start > 60000 {
+				// closed window, in-order data not (yet) acknowledged, or too much for one packet
+				out = append(out, "span skipped")
+				continue
+			}
+			pl := make([]byte, end-start)
+			for i := range pl {
+				pl[i] = tcpx.PByte(uint64(sc.K), 1, start+int64(i))
+			}
+			before, edge := nearAck, lastEdge
+			conn.Send(start, lastAck, rfc.ACK|rfc.PSH, 60000, pl, nil)
+			segs := conn.Take()
+			line := render(segs)
+			if nearAck <= before {
+				time.Sleep(300 * time.Millisecond)
+				rawpeer.Settle()
+				line += render(conn.Take())
+			}
+			out = append(out, fmt.Sprintf("span [%d,%d) over window [%d,%d) -> %s", start, end, before, edge, line))
+			if nearAck <= before {
+				return out, fmt.Sprintf("overlap: a segment covering stream bytes [%d,%d) shares every sequence number of the receive window [%d,%d), yet none of it was accepted: the cumulative acknowledgement stays at %d", start, end, before, edge, before)
+			}
+			// the peer continues from what the stack acknowledged
+			adj = nearAck - genNext
+			continue
 		case "ack":
 			a := st.Ack
 			if a < 0 {
